@@ -45,8 +45,8 @@ def check(ctx):
     observers.transparent_loop(ctx, 'R12', rc, loop, var, what='row counter')
     n += 1
     # checkpoint notifier: generator expression (row for row in rows)
-    steps_ = repo.find_funcs(module='dataflows.processors.checkpoint',
-                             pred=lambda f: f.all_params == ['package'] and f.is_generator and f.cls is None)
+    from sa.model import package_steps as _ps
+    steps_ = [f for f in _ps(repo) if f.module.name == 'dataflows.processors.checkpoint' and f.cls is None]
     if len(steps_) != 1:
         raise AnalysisError('checkpoint: the notifier package step was not found by role (%d candidates)' % len(steps_))
     step = steps_[0]
@@ -103,7 +103,7 @@ def check(ctx):
     commits.r15_descriptor_after_loop(ctx)
     sf = commits.stream_func(ctx)
     preds = {'WRITE_PKG': lambda x: isinstance(x, ast.Call) and isinstance(x.func, ast.Name) and x.func.id == roles['write'].name
-             and x.args and 'descriptor' in u(x.args[0]),
+             and x.args and any('descriptor' in u(a_) for a_ in x.args),
              'YIELD_PKG': lambda x: isinstance(x, ast.Yield) and framework._is_pkg_yield(ctx, x, sf),
              'YIELD_RES': lambda x: isinstance(x, ast.Yield) and not framework._is_pkg_yield(ctx, x, sf),
              'SEP': lambda x: isinstance(x, ast.Call) and isinstance(x.func, ast.Attribute) and x.func.attr == 'write'
